@@ -102,17 +102,31 @@ func (vfs *BasePathFS) FromLinkError(err error) error {
 // ToBasePath transforms a BasePathFS path to an internal path.
 // When the base path is "/base/path", ToBasePath("/tmp") returns "/base/path/tmp".
 func (vfs *BasePathFS) ToBasePath(path string) string {
-	if path == "" || path == "/" {
+	if !vfs.IsAbs(path) {
+		// a relative path is relative to the current directory of the BasePathFS.
+		path = vfs.Join(vfs.curDir(), path)
+	}
+
+	// Clean stops ".." at the root: nothing above the base path can be named.
+	vl := avfs.VolumeNameLen(vfs, path)
+	path = vfs.Clean(string(vfs.PathSeparator()) + path[vl:])
+
+	if len(path) == 1 {
 		return vfs.basePath
 	}
 
-	if vfs.IsAbs(path) {
-		vl := avfs.VolumeNameLen(vfs, path)
+	return vfs.basePath + path
+}
 
-		return vfs.basePath + path[vl:]
+// curDir returns the current directory expressed as a BasePathFS path,
+// the root directory when the current directory of the base file system is outside the base path.
+func (vfs *BasePathFS) curDir() string {
+	dir, err := vfs.baseFS.Getwd()
+	if err == nil && (dir == vfs.basePath || strings.HasPrefix(dir, vfs.basePath+string(vfs.PathSeparator()))) {
+		return vfs.FromBasePath(dir)
 	}
 
-	return path
+	return string(vfs.PathSeparator())
 }
 
 // Name returns the name of the fileSystem.
